@@ -1112,6 +1112,8 @@ func coqCase(c Case, out outcome) string {
 // cond.Wait.  With a helper that broadcasts without the mutex such a waiter parks for ever (about 1 per 10^5 waits);
 // with the helper broadcasting under the mutex never.  Verdict from a quiescent snapshot: every context is
 // cancelled, nothing in pubsub is runnable, yet an operation has not returned.
+var spinSink atomic.Int64
+
 func stressCancel(run *kit.Run, c Case, verbose bool) {
 	w := c.Waiters
 	if w <= 0 {
@@ -1134,9 +1136,11 @@ func stressCancel(run *kit.Run, c Case, verbose bool) {
 			ctx, cancel := context.WithTimeout(context.Background(), deadline)
 			wg.Add(1)
 			cw.Add(1)
-			spin := (i*7 + round*13) % 64
+			spin := (i*37 + round*101) % 3000
+			var started atomic.Bool
 			go func() {
 				defer wg.Done()
+				started.Store(true)
 				switch (i + round) % 6 {
 				case 0, 1:
 					kinds[i] = "Queue.Wait"
@@ -1158,8 +1162,15 @@ func stressCancel(run *kit.Run, c Case, verbose bool) {
 			}()
 			go func() {
 				defer cw.Done()
+				// cancel a few hundred nanoseconds after the call has begun: around the time the waiter is
+				// between its `select` and cond.Wait
+				for n := 0; !started.Load(); n++ {
+					if n > 100 {
+						runtime.Gosched()
+					}
+				}
 				for k := 0; k < spin; k++ {
-					runtime.Gosched()
+					spinSink.Add(1)
 				}
 				cancel()
 			}()
@@ -2096,7 +2107,7 @@ func corpus() []Case {
 
 func main() {
 	run := kit.Start()
-	run.Header = "From FunV Require Import Base.Tac Conc.Monitor Model.QueueMonitor Model.DequeMonitor Corr.C07_corr.\nFrom Coq Require Import Floats String."
+	run.Header = "From FunV Require Import Base.Tac Conc.Monitor Model.QueueMonitor Model.DequeMonitor Corr.C07_corr.\nFrom Coq Require Import PrimFloat String."
 	run.Footer = "Definition M := Eval vm_compute in mismatches cases.\nPrint M."
 	run.CaseType = "case"
 	run.ShardSize = 200
